@@ -46,7 +46,9 @@ var propSpecs = map[string]*PropSpec{
 	"C14": {ID: "C14", Pkgs: []string{"./cmd/benchstat/internal/benchtab", "./benchproc"}},
 	"C16": {ID: "C16", Pkgs: []string{"./cmd/benchstat/internal/texttab", "./benchproc"}},
 	"C17": {ID: "C17", Pkgs: []string{"./benchstat"}},
-	"C19": {ID: "C19", Pkgs: []string{"./storage/db", "./storage/query", "./analysis/app"}},
+	"C19": {ID: "C19", Pkgs: []string{"./storage/db", "./storage/query"}, BoundedChecks: []boundedSpec{
+		{"storage/db", "merge", "pairs and triples of query parts on one key evaluated by brute force (conjunction semantics, contradiction detection), and parseQuery on multi-term queries"},
+		{"analysis/app", "roundtrip", "a label value quoted by addToQuery is split back by SplitWords into exactly the original word, for every short string over the characters that matter to quoting"}}},
 }
 
 type KnownFinding struct {
